@@ -66,6 +66,8 @@ BLOCK_MAKERS = [
     lambda i: n.ListNode((i,), [n.ListNodeItem((i,), [n.Paragraph((i,), [n.Text((i,), f"li{i}")])])], n.ListEnumType.unordered, None),
     lambda i: n.Directive((i,), [], "", "note", [], {}),
     lambda i: n.Comment((i,), [n.Text((i,), f"k{i}")]),
+    # `|other|` alone on a line: a block-level reference that already holds block content
+    lambda i: n.BlockSubstitutionReference((i,), [n.Paragraph((i,), [n.Text((i,), f"b{i}")]), n.Paragraph((i,), [n.Text((i,), f"b{i}")])], "undefined-inner"),
 ]
 REF_LINE = 900
 
